@@ -44,6 +44,25 @@ func zeroSumSpan(r *Rng, n int) []Ent {
 	return []Ent{}
 }
 
+// almostCanonical rescales a span so that its entries sum to 1 up to a relative perturbation of
+// 2^-32 .. 2^-45 of one entry: already-normalised-looking data must still be divided by its sum.
+func almostCanonical(r *Rng, l []Ent) []Ent {
+	var sum float64
+	for _, e := range l {
+		sum += float64(e.V)
+	}
+	if len(l) == 0 || sum <= 0 || math.IsInf(sum, 0) {
+		return l
+	}
+	out := make([]Ent, len(l))
+	for i, e := range l {
+		out[i] = Ent{I: e.I, V: JFloat(float64(e.V) / sum)}
+	}
+	k := r.Intn(len(out))
+	out[k].V = JFloat(float64(out[k].V) * (1 + math.Ldexp(1, -32-r.Intn(14))))
+	return out
+}
+
 func genC04(r *Rng, tier string) []*Case {
 	var cs []*Case
 	reps := 500
@@ -66,6 +85,9 @@ func genC04(r *Rng, tier string) []*Case {
 				l[i].V = JFloat(math.Ldexp(float64(l[i].V), -60))
 			}
 		}
+		if r.Chance(12) {
+			l = almostCanonical(r, l)
+		}
 		cs = append(cs, mk("CanonSpan", c04Span{L: l}))
 		// local trust: zero rows at first / middle / last position, with and without p
 		m := Mat{Major: n, Minor: n, Rows: make([][]Ent, n)}
@@ -76,6 +98,10 @@ func genC04(r *Rng, tier string) []*Case {
 			if r.Chance(40) {
 				m.Rows[pos] = zeroSumSpan(r, n)
 			}
+		}
+		if r.Chance(15) {
+			i := r.Intn(n)
+			m.Rows[i] = almostCanonical(r, m.Rows[i])
 		}
 		lt := c04LT{M: m}
 		if r.Chance(70) {
@@ -94,6 +120,9 @@ func genC04(r *Rng, tier string) []*Case {
 		if r.Chance(15) {
 			v.Ents = zeroSumSpan(r, n)
 		}
+		if r.Chance(12) {
+			v.Ents = almostCanonical(r, v.Ents)
+		}
 		cs = append(cs, mk("CanonTV", c04TV{V: v}))
 		// power-of-two scaling of every row and of the pre-trust
 		if k%3 == 0 {
@@ -101,7 +130,14 @@ func genC04(r *Rng, tier string) []*Case {
 			for i := range mm.Rows {
 				mm.Rows[i] = sortedSpan(r, n, r.Pick(30, 70), 0, r.Pos)
 			}
+			if r.Chance(30) {
+				i := r.Intn(n)
+				mm.Rows[i] = almostCanonical(r, mm.Rows[i])
+			}
 			sc := c04Scaled{M: mm, P: Vec{Dim: n, Ents: sortedSpan(r, n, 60, 0, r.Pos)}, PExp: r.Intn(80) - 40}
+			if r.Chance(30) {
+				sc.P.Ents = almostCanonical(r, sc.P.Ents)
+			}
 			for i := 0; i < n; i++ {
 				sc.RowExps = append(sc.RowExps, r.Intn(120)-60)
 			}
